@@ -149,5 +149,40 @@ def build(P):
                                ensures=E("unknown_parameter_reaches_the_metric_parameters",
                                          f"any([k == evaluation_config_dict.keys()[{len(read_keys)}] for k in result[1].keys()])")),
              extra_contracts={idx.lookup("common.label:set_target_lists").fq: stl, idx.lookup(f"{TH}:set_thresholds").fq: st_cut})
+    # ---------------------------------------------------------------- frame-level configurations: every per-label list has one number per target label
+    FC = "evaluation.result.perception_frame_config"
+    ct_cut = Contract(f"{TH}:check_thresholds", params={}, returns=D, requires=E("a_list", "is_list(thresholds)"), raises={"ThresholdError": "True"},
+                      ensures=E("one_number_per_label", f"is_list(result) and dlen(result) == num_elements and {all_real('result')}", "nothing_padded_or_truncated", "result is thresholds"))
+    mk_ev = lambda it: (lambda o: (it.ctx.cell(o).update(evaluation_task=TEnum(ETC).fresh(it.ctx, "task"), label_converter=it.ctx.new_cell("obj", {}, None)), o)[1])(it.ctx.new_cell("obj", {}, None))
+    listy = lambda it, nm: TDyn().fresh(it.ctx, nm)
+    per_attr = lambda a: f"implies(self.{a} is not None, is_list(self.{a}) and dlen(self.{a}) == len(self.target_labels) and {all_real('self.' + a)})"
+    is_l = lambda a: f"implies({a} is not None, is_list({a}))"
+    CO = idx.lookup(f"{FC}:CriticalObjectFilterConfig")
+    co_lists = ["max_x_position_list", "max_y_position_list", "max_distance_list", "min_distance_list", "min_point_numbers", "confidence_threshold_list"]
+    P.verify(f"{FC}:CriticalObjectFilterConfig.__init__", name="CriticalObjectFilterConfig.__init__",
+             contract=Contract(f"{FC}:CriticalObjectFilterConfig.__init__", cut=False,
+                               params=dict({"self": lambda it: it.ctx.new_cell("obj", {}, CO), "evaluator_config": mk_ev, "target_labels": lambda it: it.ctx.new_cell("list", []),
+                                            "ignore_attributes": NONE, "target_uuids": NONE}, **{a: (lambda it, a=a: listy(it, a)) for a in co_lists}),
+                               requires=[(f"{a}_is_a_list_when_given", is_l(a)) for a in co_lists],
+                               raises={"RuntimeError": "not (max_x_position_list and max_y_position_list) and not (max_distance_list and min_distance_list) and not "
+                                                       "(evaluator_config.evaluation_task in (EvaluationTask.DETECTION2D, EvaluationTask.TRACKING2D, EvaluationTask.CLASSIFICATION2D, EvaluationTask.FP_VALIDATION2D))",
+                                       "ThresholdError": "True"},
+                               ensures=[(f"{a}_holds_one_number_per_label", per_attr(a)) for a in co_lists] +
+                                       [("one_kind_of_range_bound_is_exposed", "(self.max_x_position_list is None and self.max_y_position_list is None) or "
+                                                                               "(self.max_distance_list is None and self.min_distance_list is None)"),
+                                        ("filtering_params_expose_the_validated_lists", " and ".join(f"self.filtering_params['{a}'] is self.{a}" for a in co_lists) +
+                                         " and self.filtering_params['target_labels'] is self.target_labels")]),
+             extra_contracts={idx.lookup("common.label:set_target_lists").fq: stl, idx.lookup(f"{TH}:check_thresholds").fq: ct_cut})
+    PFCC = idx.lookup(f"{FC}:PerceptionPassFailConfig")
+    pf_lists = ["matching_threshold_list", "confidence_threshold_list"]
+    P.verify(f"{FC}:PerceptionPassFailConfig.__init__", name="PerceptionPassFailConfig.__init__",
+             contract=Contract(f"{FC}:PerceptionPassFailConfig.__init__", cut=False,
+                               params=dict({"self": lambda it: it.ctx.new_cell("obj", {}, PFCC), "evaluator_config": mk_ev, "target_labels": lambda it: it.ctx.new_cell("list", [])},
+                                           **{a: (lambda it, a=a: listy(it, a)) for a in pf_lists}),
+                               requires=[(f"{a}_is_a_list_when_given", is_l(a)) for a in pf_lists],
+                               raises={"ThresholdError": "True"},
+                               ensures=[(f"{a}_holds_one_number_per_label", per_attr(a)) for a in pf_lists] +
+                                       [("task_of_the_evaluator", "self.evaluation_task is evaluator_config.evaluation_task")]),
+             extra_contracts={idx.lookup("common.label:set_target_lists").fq: stl, idx.lookup(f"{TH}:check_thresholds").fq: ct_cut})
     P.assume("threshold values are modelled two levels deep with a type tag (None, bool, int, float, str, list, other); the code never inspects deeper levels")
     P.uncover("__get_thresholds / __get_nested_thresholds (broadcast of scalars and singletons, idempotence, 'output entries are input entries'): bounded native harness only")
